@@ -179,7 +179,7 @@ SETTERS = [
     ("tcp", "checksum", "set_checksum", 7, 128, 16, None, False),
     ("tcp", "urgent", "set_urgent", 8, 144, 16, None, False),
 ]
-QUICK_SETTERS = {("eth", "type"), ("vlan", "id"), ("vlan", "dei"), ("ipv4", "ttl"), ("ipv4", "fragoff"),
+QUICK_SETTERS = {("eth", "type"), ("vlan", "id"), ("ipv4", "ttl"), ("ipv4", "fragoff"),
                  ("ipv6", "flowlabel"), ("udp", "len"), ("tcp", "dataoff"), ("tcp", "seq")}
 
 
@@ -201,7 +201,7 @@ def setter_harnesses() -> List[H]:
         if lname != "ipv4":
             continue
         al = "MAXF" if alias is None else str(alias)
-        tier = "quick" if prop in ("ihl", "totlen") else "thorough"
+        tier = "quick" if prop == "ihl" else "thorough"
         call = (f"set::<Ipv4Packet, 28>(0, Field {{ k: {k}, bo: {bo}, w: {w} }}, {al}, "
                 f"|x, v| x.{meth}(v), {str(boolv).lower()}, 0x46)")
         out.append(H(f"c17_ipv4_set_{prop}_b46", "C17", tier, call, f"ipv4_set_{prop}",
